@@ -22,7 +22,7 @@ SPEC = {
     ],
     "classes": {1: "variable-position-not-checked", 2: "overlapping-fields-partial", 3: "argument-values-partial",
                 4: "subscription-single-root-not-checked", 5: "typename-field-unvisited"},
-    "n_quick": 500, "n_thorough": 12000,
+    "n_quick": 500, "n_thorough": 2000,
     "level": "other",
     "what_violation": "strict validation accepts/rejects differently from the specification of validity (or rejects without a located error / after a resolver ran)",
     "rule": ("per generated schema (injected registry: objects, interfaces, unions, enum, input objects incl. oneOf, custom scalar, Upload, "
